@@ -45,7 +45,8 @@ func c06Ops(sub bool) []string {
 	}
 	ops = append(ops,
 		"b = a", "c = [a, 0]", "a[0] = 100", "a[-1] = 101", "b[0] = 108", "a = a + [103]", "b = a + b", "a = a + 104",
-		"del(a[0])", "b = a[1:]", "b = a[0:-1]", "b = rest(a)", "func(p) { p[0] = 105; p }(a)", "x = c[0]; x[0] = 107", "b = a + {0: 5}", "a = a + {200: 1}")
+		"del(a[0])", "b = a[1:]", "b = a[0:-1]", "b = rest(a)", "func(p) { p[0] = 105; p }(a)", "x = c[0]; x[0] = 107", "b = a + {0: 5}", "a = a + {200: 1}",
+		"b = a + 7; c = a + 8", "b = {\"x\": 0} + a", "c = {0: 1} + a; c[300] = 1")
 	if !sub {
 		ops = append(ops, "c = {\"k\": a}", "a = b", "b = c", "a[3] = 102", "c = a + [1]", "a[0] = a[0] + 1", "func(p) { p = p + [5]; 1 }(a)",
 			"for e = a { a[0] = 106 }", "a = a * 2", "c = b + a", "m = a; m[1] = 55; b = m", "x = c.k; x[2] = 77", "b = a[2:5]; b[0] = 66", "a[8] = 88")
@@ -141,9 +142,9 @@ func runC06(c *core.Ctx) {
 			ok = explore("hist", sub, 5)
 			if ok {
 				bounds = append(bounds, fmt.Sprintf("every history of <=5 operations over a %d-operation sub-alphabet centred on the thresholds", len(sub)))
-				ok = explore("hist", full[:34], 4)
+				ok = explore("hist", full[:37], 4)
 				if ok {
-					bounds = append(bounds, "every history of <=4 operations over the first 34 operations")
+					bounds = append(bounds, "every history of <=4 operations over the first 37 operations")
 				}
 			}
 		}
